@@ -26,6 +26,11 @@
 #include <stdarg.h>
 #include <string.h>
 
+#ifdef ASL_VERIF
+#    include "verif_hooks.h"
+#endif
+
+
 typedef struct sExpectError {
     struct sExpectError* pNext;
     tErrorNum            Num;
@@ -1048,6 +1053,13 @@ void WrXErrorPos(
 
     pExpectError = FindAndTakeExpectError(Num);
     if (pExpectError) {
+#ifdef ASL_VERIF
+        if (AV_ON(AV_DIAG)) {
+            fprintf(asl_verif_trace,
+                    "{\"e\":\"diag\",\"pass\":%d,\"line\":%ld,\"num\":%d,\"cls\":\"expected\"}\n",
+                    (int)PassNo, (long)CurrLine, (int)Num);
+        }
+#endif
         free(pExpectError);
         return;
     }
@@ -1071,6 +1083,24 @@ void WrXErrorPos(
     } else {
         *Add = '\0';
     }
+#ifdef ASL_VERIF
+    if (AV_ON(AV_DIAG)) {
+        char* pPos = GetErrorPos();
+
+        fprintf(asl_verif_trace, "{\"e\":\"diag\",\"pass\":%d,\"line\":%ld,\"num\":%d,\"cls\":\"%s\",",
+                (int)PassNo, (long)CurrLine, (int)Num,
+                (Num >= 10000) ? "fatal"
+                               : (((Num < 1000) && !TreatWarningsAsErrors) ? "warning"
+                                                                            : "error"));
+        asl_verif_str("pos", pPos ? pPos : "");
+        fprintf(asl_verif_trace, ",\"errs\":%u,\"warns\":%u}\n", (unsigned)ErrorCount,
+                (unsigned)WarnCount);
+        fflush(asl_verif_trace);
+        if (pPos) {
+            free(pPos);
+        }
+    }
+#endif
     WrErrorString(pErrorMsg, Add, Num < 1000, Num >= 10000, pExtendError, pLineComp);
 }
 
